@@ -49,6 +49,36 @@ def built_tree(rng):
     return spec
 
 
+SHAPE_TAGS = ("rect", "circle", "ellipse", "line", "polyline", "polygon", "path")
+DIM_ATTRS = {"rect": ["x", "y", "width", "height", "rx", "ry"], "circle": ["cx", "cy", "r"], "ellipse": ["cx", "cy", "rx", "ry"],
+             "line": ["x1", "y1", "x2", "y2"]}
+
+
+def written_shapes(xroot):
+    """the shape elements of the written XML in document order: tag, whether the nearest svg ancestor is the root, the six
+    numbers of the transform attribute (None when absent), the dimension attributes present"""
+    out = []
+
+    def local(t):
+        return t.split("}")[-1]
+
+    def go(e, depth_svg):
+        t = local(e.tag)
+        if t == "svg":
+            depth_svg += 1
+        if t in SHAPE_TAGS:
+            tf = e.attrib.get("transform")
+            nums = None
+            if tf is not None and tf.startswith("matrix(") and tf.endswith(")"):
+                nums = [float(v) for v in tf[7:-1].split(",")]
+            dims = {k: e.attrib[k] for k in DIM_ATTRS.get(t, []) if k in e.attrib}
+            out.append({"tag": t, "top": depth_svg <= 1, "tf": nums, "has_tf": tf is not None, "dims": dims})
+        for c in e:
+            go(c, depth_svg)
+    go(xroot, 0)
+    return out
+
+
 def no_arc_path(rng):
     """path data without arc commands: arc radii are printed with 6 digits (known finding C07-arc-d-6digits)"""
     while True:
@@ -266,8 +296,14 @@ class C20(Prop):
             obs["write_exc"] = exc_name(e) + ": " + str(e)[:100]
             return obs
         try:
-            ET.fromstring(text)
+            xroot = ET.fromstring(text)
             obs["wellformed"] = True
+            obs["written"] = written_shapes(xroot)
+            try:
+                vm = Matrix(svg.viewbox_transform) if getattr(svg, "viewbox", None) is not None and svg.viewbox_transform else None
+                obs["src_vt"] = None if vm is None else [float(vm.a), float(vm.b), float(vm.c), float(vm.d), float(vm.e), float(vm.f)]
+            except Exception:
+                obs["src_vt"] = "unknown"
         except Exception as e:
             obs["wellformed"] = False
             obs["xml_error"] = str(e)[:100]
@@ -305,11 +341,67 @@ class C20(Prop):
                 shutil.rmtree(d, ignore_errors=True)
         return obs
 
+    # ---------------------------------------------------------------- writer model (Model/Write.lean)
+    def model_ops2(self, case, obs):
+        """for every written shape directly under the root svg: the matrix the model says is written, and which of its
+        dimensions the truthiness guard lets through"""
+        plan = obs["plan"] = []
+        ops = []
+        if "written" not in obs or "src" not in obs or obs.get("src_vt") == "unknown" or len(obs["written"]) != len(obs["src"]):
+            return ops
+        vt = obs["src_vt"]
+        for i, (w, s) in enumerate(zip(obs["written"], obs["src"])):
+            if not w["top"]:
+                continue
+            ops.append("c20.written\t%s\t%s" % (" ".join(fhex(v) for v in s["m"]), "-" if vt is None else " ".join(fhex(v) for v in vt)))
+            plan.append(("tf", i))
+            if s.get("fields") is not None and w["tag"] in DIM_ATTRS and s["kind"] in DIM_ATTRS:
+                ops.append("c20.dims\t%s" % " ".join(fhex(v) for v in s["fields"]))
+                plan.append(("dims", i))
+        return ops
+
     def model_ops(self, case):
         return []
 
     def compare(self, case, obs, outs):
-        return []
+        ms = []
+        for (what, i), out in zip(obs.get("plan", []), outs):
+            w, s = obs["written"][i], obs["src"][i]
+            toks = out.split()
+            if toks[0] != "OK":
+                ms.append(Mismatch(stream="c20.write", case=case, impl=w, model=out))
+                break
+            if what == "tf":
+                W = [hexf(t) for t in toks[1:7]]
+                ident = all(abs(a - b) <= 5e-7 for a, b in zip(W, [1, 0, 0, 1, 0, 0]))
+                if w["tf"] is None:
+                    if w["has_tf"] or not ident:
+                        # is_identity() is exact: a matrix within 5e-7 of the identity may legitimately be written
+                        if not all(abs(a - b) <= 1e-12 for a, b in zip(W, [1, 0, 0, 1, 0, 0])) and not w["has_tf"]:
+                            ms.append(Mismatch(stream="c20.write", case=case, impl="shape %d (%s): no transform written" % (i, w["tag"]), model=W))
+                            break
+                elif any(abs(a - b) > 5.1e-7 + 1e-12 * abs(b) for a, b in zip(w["tf"], W)):
+                    ms.append(Mismatch(stream="c20.write", case=case, impl="shape %d (%s): transform written %r" % (i, w["tag"], w["tf"]), model=W))
+                    break
+            else:
+                names = DIM_ATTRS[s["kind"]]
+                vals = toks[1:]
+                if s["kind"] == "circle" and w["tag"] == "circle":
+                    vals = vals[:3]
+                elif s["kind"] == "circle" and w["tag"] == "ellipse":
+                    names = DIM_ATTRS["ellipse"]
+                for nme, mv in zip(names, vals):
+                    have = w["dims"].get(nme)
+                    if mv == "-":
+                        if have is not None and float(have) != 0.0:
+                            ms.append(Mismatch(stream="c20.write", case=case, impl="shape %d (%s): %s=%s written, model omits it" % (i, w["tag"], nme, have), model=mv))
+                            break
+                    elif have is None or abs(float(have) - hexf(mv)) > 1e-9 * max(1.0, abs(hexf(mv))):
+                        ms.append(Mismatch(stream="c20.write", case=case, impl="shape %d (%s): %s=%r written" % (i, w["tag"], nme, have), model=hexf(mv)))
+                        break
+                if ms:
+                    break
+        return ms
 
     # ---------------------------------------------------------------- oracle
     def oracle(self, case, obs):
